@@ -18,7 +18,8 @@ from .surface import print_doc
 
 ROUTES = ['ctor_str', 'ctor_path', 'ctor_file', 'static_parse', 'instance_parse',
           'parse_file_str', 'parse_file_path', 'parse_file_file']
-BAD = ['bytes', 'int', 'list', 'StringIO', 'float', 'tuple', 'int0', 'bytes_empty', 'list_empty', 'tuple_empty', 'float0', 'false', 'dict_empty']
+BAD = ['bytes', 'int', 'list', 'StringIO', 'float', 'tuple', 'int0', 'bytes_empty', 'list_empty', 'tuple_empty', 'float0', 'false', 'dict_empty',
+       'pathlike', 'bytearray', 'bytes_path', 'purepath']
 
 
 def _call(route: str, text: str, bom: bool, opts: Dict[str, bool], tmpdir: str):
@@ -83,6 +84,18 @@ def _call(route: str, text: str, bom: bool, opts: Dict[str, bool], tmpdir: str):
         db = PyDBML({'int0': 0, 'bytes_empty': b'', 'list_empty': [], 'tuple_empty': (), 'float0': 0.0, 'false': False, 'dict_empty': {}}[route], **kw)
     elif route == 'StringIO':
         db = PyDBML(io.StringIO(src), **kw)
+    elif route == 'pathlike':
+        class P:                                  # an os.PathLike that is no pathlib.Path, naming the real file
+            def __fspath__(self):
+                return fn
+        db = PyDBML(P(), **kw)
+    elif route == 'bytearray':
+        db = PyDBML(bytearray(src.encode('utf8')), **kw)
+    elif route == 'bytes_path':
+        db = PyDBML(fn.encode('utf8'), **kw)          # the file's name as bytes
+    elif route == 'purepath':
+        from pathlib import PurePosixPath
+        db = PyDBML(PurePosixPath(fn), **kw)
     else:
         raise RuntimeError(route)
     if db.sql_renderer is CustomSQL and db.dbml_renderer is CustomDBML:
